@@ -617,6 +617,47 @@ pub fn description_states(
         }
     }
     info.push(("D-samename(two definitions named alike in different modules, all ordered pairs of 6 bodies)".into(), same, same, true));
+    // D-unicode: field and variant names outside ASCII (type and module names must be ASCII for scale-info);
+    // D-twice: one generic instantiation whose argument contains a tuple / unit, referred to twice (the second
+    // reference is a cache hit on a finished type)
+    {
+        let s = Def::strukt(&["g", "u"], "Mass", &[], named(vec![("l\u{e4}nge", U8), ("\u{4e2d}", Ty::Vec(b(U16)))]));
+        let e = Def::enm(
+            &["g", "u"],
+            "Art",
+            &[],
+            vec![
+                variant("\u{c4}", Fields::Unnamed(vec![Field::new(U8)])),
+                variant("\u{6587}", Fields::Named(vec![("\u{e9}".into(), Field::new(Ty::Named(0, vec![])))])),
+            ],
+        );
+        let prog = Program {
+            defs: vec![s, e],
+            roots: vec![Ty::Named(1, vec![])],
+        };
+        states.push(js(json!({"prog": serde_json::to_value(prog).unwrap(), "seeds": seeds})));
+        let pair = Def::strukt(&["g", "w"], "Pair", &["T"], named(vec![("p", Ty::Param(0))]));
+        let tup = Ty::Tuple(vec![U8, U16]);
+        let host = Def::strukt(
+            &["g", "w"],
+            "Twice",
+            &[],
+            named(vec![
+                ("a", Ty::Named(0, vec![tup.clone()])),
+                ("b", Ty::Named(0, vec![tup.clone()])),
+                ("c", Ty::Result(b(Ty::Tuple(vec![])), b(U8))),
+                ("d", Ty::Result(b(Ty::Tuple(vec![])), b(U8))),
+                ("e", Ty::Vec(b(Ty::Named(0, vec![Ty::Tuple(vec![])])))),
+                ("f", Ty::Option(b(Ty::Named(0, vec![Ty::Tuple(vec![])])))),
+            ]),
+        );
+        let prog = Program {
+            defs: vec![pair, host],
+            roots: vec![Ty::Named(1, vec![])],
+        };
+        states.push(js(json!({"prog": serde_json::to_value(prog).unwrap(), "seeds": seeds})));
+        info.push(("D-unicode(non-ASCII field and variant names) + D-twice(a generic with a tuple / unit argument referred to twice)".into(), 2, 2, true));
+    }
     // D-width: many draws of every integer kind per seed ([[p; 32]; 32])
     let mut width = 0u64;
     for p in Prim::INTS {
